@@ -1030,3 +1030,47 @@ M("C08", "titan-userinfo-check-on-cut-part", "breaking",
   "V2:protocol.request:TitanRequest.from_line:titan-accepts:a user-info")
 M("C08", "benign-titan-authority-by-partition", "benign",
   [(RQ, "TitanRequest.from_line", "        if \"@\" in re.split(r\"[/?#]\", line[8:], maxsplit=1)[0]:\n", "        authority = line[len(\"titan://\"):].partition(\"/\")[0].partition(\"?\")[0]\n        if \"@\" in authority:\n")])
+
+# ---------------------------------------------------------------- round g rules
+_PI = "        # Validate Titan configuration\n        if isinstance(self.titan_upload_dir, str):"
+M("C09", "config-drops-blank-acl-entries", "breaking",
+  [(CFGF, "ServerConfig.__post_init__", _PI, "        if self.access_control_allow_list is not None:\n            self.access_control_allow_list = [e for e in self.access_control_allow_list if e.strip()]\n" + _PI)],
+  "I7:server.config:ServerConfig.__post_init__:config-field-rewritten:access_control_allow_list")
+M("C09", "benign-config-copies-acl-lists", "benign",
+  [(CFGF, "ServerConfig.__post_init__", _PI, "        if self.access_control_allow_list is not None:\n            self.access_control_allow_list = list(self.access_control_allow_list)\n" + _PI)])
+M("C10", "config-raises-capacity-to-rate", "breaking",
+  [(CFGF, "ServerConfig.__post_init__", _PI, "        self.rate_limit_capacity = max(self.rate_limit_capacity, int(self.rate_limit_refill_rate))\n" + _PI)],
+  "L11:server.config:ServerConfig.__post_init__:config-field-rewritten:rate_limit_capacity")
+M("C14", "config-clamps-upload-size", "breaking",
+  [(CFGF, "ServerConfig.__post_init__", _PI, "        self.titan_max_upload_size = max(self.titan_max_upload_size, 1024)\n" + _PI)],
+  "U9:server.config:ServerConfig.__post_init__:config-field-rewritten:titan_max_upload_size")
+M("C09", "acl-config-grows-len", "breaking",
+  [(MW, "AccessControlConfig", "    default_allow: bool = True\n", "    default_allow: bool = True\n\n    def __len__(self) -> int:\n        return len(self.allow_list or ()) + len(self.deny_list or ())\n"),
+   (MW, "AccessControl.__init__", "self.config = config or AccessControlConfig()", "self.config = config if config is not None else AccessControlConfig()")],
+  "I8:server.middleware:AccessControlConfig:falsy-config:__len__")
+M("C07", "connection-lost-drops-pending-upload", "breaking",
+  [(P, "GeminiServerProtocol.connection_lost", "        self.transport = None\n", "        self.transport = None\n        self.titan_request = None\n")],
+  "S5:server.protocol:GeminiServerProtocol.connection_lost:cleared-under-pending-callback:titan_request")
+M("C07", "benign-connection-lost-drops-buffer", "benign",
+  [(P, "GeminiServerProtocol.connection_lost", "        self.transport = None\n", "        self.transport = None\n        self.buffer = b\"\"\n")])
+M("C15", "log-processor-counter-keyerror", "breaking",
+  [("utils/logging.py", "hash_ip_processor", "    return event_dict\n", "    _seen[event_dict.get(\"event\")] += 1\n    return event_dict\n"),
+   ("utils/logging.py", None, "def hash_ip_processor(", "_seen: dict = {}\n\n\ndef hash_ip_processor(")],
+  "X6:utils.logging:hash_ip_processor:processor-may-raise:_seen[")
+M("C14", "log-processor-unpacks-split", "breaking",
+  [("utils/logging.py", "hash_ip_processor", "    return event_dict\n", "    if isinstance(event_dict.get(\"path\"), str) and \";token=\" in event_dict[\"path\"]:\n        url, token = event_dict[\"path\"].split(\";token=\")\n        event_dict[\"path\"] = url\n    return event_dict\n")],
+  "U8:utils.logging:hash_ip_processor:processor-may-raise:url, token")
+M("C12", "cli-trust-revokes-first", "breaking",
+  [("__main__.py", "tofu_trust", "                        db.trust(hostname, port, cert)\n", "                        db.revoke(hostname, port)\n                        db.trust(hostname, port, cert)\n")],
+  "D8:__main__:tofu_trust")
+M("C12", "benign-cli-trust-looks-up-first", "benign",
+  [("__main__.py", "tofu_trust", "                        db.trust(hostname, port, cert)\n", "                        known = db.get_host_info(hostname, port) is not None\n                        db.trust(hostname, port, cert)\n")])
+M("C03", "store-connection-autocommit", "breaking",
+  [(TF, "TOFUDatabase._connection", "sqlite3.connect(str(self.db_path))", "sqlite3.connect(str(self.db_path), isolation_level=None)")],
+  "T11:security.tofu:TOFUDatabase._connection:autocommit")
+M("C02", "listing-reads-entry-title", "breaking",
+  [("content/gemtext.py", "generate_directory_listing", "            size = _format_file_size(item.stat().st_size)\n", "            size = _format_file_size(item.stat().st_size)\n            first = item.read_text(errors=\"replace\")[:40] if item.suffix == \".gmi\" else \"\"\n")],
+  "P6:content.gemtext:generate_directory_listing:listing-reads-entry")
+M("C10", "client-ip-last-group-only", "breaking",
+  [(P, "GeminiServerProtocol._handle_gemini_request", "        client_ip = self.peer_name[0] if self.peer_name else \"unknown\"\n", "        client_ip = str(self.peer_name[0]).rpartition(\":\")[2] if self.peer_name else \"unknown\"\n")],
+  "L13:server.protocol:GeminiServerProtocol._handle_gemini_request:consult-ip")
